@@ -21,6 +21,7 @@ EXPLANATION = (
     ' (D2 unwrap) the 1-D result is chosen by the number of dimensions (len(ind) == 1 / ndim == 1), never by np.squeeze without an axis, whose effect depends on the number of detected edges.'
     " (D3 as built) sync composition model: the digital part is split_sync of the sync column(s) of the requested rows of the raw file (one- or two-step gather, through locals), the analog part is the analog sync channels of the same rows in volts; read(sync=True) is checked with the same model (a gather applied on top of the caller's channel selection is reported)."
     ' (D1 guarded fast paths) an early return of split_sync selected by a test on the words must entail that the bits it drops are zero: an upper bound on the words as signed int16 does not (bit 15 makes them negative).'
+    ' (D3 sample-domain form) read_sync comparing raw integer samples with (floor + threshold) / s2v into a preallocated int8 array: algebraic equivalence with the volts-domain test, layout of the two parts, and an integer detection level only after ceil + clip (astype truncates and wraps).'
 )
 ASSUMPTIONS = [
     "little-endian host (x86/ARM): the low byte of an int16 comes first in memory",
